@@ -1172,6 +1172,63 @@ def assemble_region(spec, bundle, out, sf, it, canary):
                     "canary": spec.opts.get("canary", "check"), "verus_name": spec.opts.get("name")})
 
 
+def spec_all_tags(spec):
+    tags = set(spec.tags)
+    for c in spec.clauses:
+        tags.update(c[1] or [])
+    for cl in list(spec.loops.values()) + list(spec.closures.values()):
+        for c in cl:
+            tags.update(c[1] or [])
+    for pr in spec.proofs:
+        tags.update(pr[1] or [])
+    return sorted(tags)
+
+
+def salvage_fn(spec, bundle, out, err):
+    """The function could not be brought under contract on this tree (lost anchor, changed loop or closure shape).
+    Keep the rest of the bundle checkable: emit the function's contract on its real signature with an unverified body
+    (external_body). The caller of assemble() must treat every property tagged on this function as UNDECIDED."""
+    import copy
+    fnkey = spec.path if spec.region is None else spec.path + "@" + spec.opts.get("name", "region")
+    for cid in [c for c, v in out.clauses.items() if v["fn"] == fnkey]:
+        del out.clauses[cid]
+    out.lines[:] = []
+    if spec.region is not None:
+        sigc = spec.region[2]
+        for a in spec.attrs:
+            out.emit(a, ("tmpl", spec.tmpl_line))
+        out.emit("#[verifier::external_body]", ("tmpl", spec.tmpl_line))
+        out.emit(sigc[2], ("tmpl", sigc[3]))
+        groups = {}
+        for c in spec.clauses:
+            groups.setdefault(c[0], []).append(c)
+        for kind in ["requires", "ensures"]:
+            if kind not in groups:
+                continue
+            out.emit("    " + kind, ("tmpl", groups[kind][0][3]))
+            for idx, c in enumerate(groups[kind], 1):
+                cid = clause_id(bundle, fnkey, kind, idx)
+                out.clauses[cid] = {"fn": fnkey, "kind": kind, "idx": idx, "tags": sorted(set(c[1] or spec.tags)),
+                                    "text": " ".join(c[2].split()), "file": spec.file, "tmpl_line": c[3]}
+                out.emit("        " + c[2].replace("\n", "\n        ") + ",", ("clause", cid))
+        out.emit("{ unimplemented!() }", ("tmpl", spec.tmpl_line))
+        out.fns.append({"fn": fnkey, "file": spec.file, "lines": [0, 0], "tags": spec.tags, "tmpl_line": spec.tmpl_line,
+                        "region": True, "external_body": True, "canary": "skip", "verus_name": spec.opts.get("name"),
+                        "salvaged": True})
+    else:
+        st = copy.copy(spec)
+        st.opts = dict(spec.opts)
+        st.opts["stub-body"] = "1"
+        st.opts["canary"] = "skip"
+        st.attrs = [a for a in spec.attrs if "external_body" not in a] + ["#[verifier::external_body]"]
+        st.loops, st.closures, st.proofs = {}, {}, []
+        st.clauses = [c for c in spec.clauses if c[0] in ("requires", "ensures", "recommends", "returns")]
+        assemble_fn(st, bundle, out, False)
+        out.fns[-1]["salvaged"] = True
+    out.dropped.append("%s::%s: SALVAGED on this tree (%s): body not verified, contract assumed; every property tagged on it is undecided" % (spec.file, fnkey, err))
+    return {"fn": fnkey, "file": spec.file, "tags": spec_all_tags(spec), "error": str(err)}
+
+
 def assemble_item(node, out):
     _, tl, rel, kind, name, opts = node
     sf = get_file(rel)
@@ -1224,7 +1281,7 @@ class FnLines(list):
     pass
 
 
-def assemble(template_path, canary=False):
+def assemble(template_path, canary=False, force_salvage=None):
     bundle = os.path.splitext(os.path.basename(template_path))[0]
     out = Out()
     out.hoisted = {}
@@ -1234,6 +1291,7 @@ def assemble(template_path, canary=False):
     tag_regions = []
     # two passes: functions first into sub-buffers so hoisted items can be emitted anywhere
     bufs = []
+    salvaged = []
     mod_stack = []   # (name, depth at which the module was opened)
     depth = 0
     for node in nodes:
@@ -1256,7 +1314,19 @@ def assemble(template_path, canary=False):
         elif node[0] == "item":
             assemble_item(node, sub)
         elif node[0] == "fn":
-            assemble_fn(node[1], bundle, sub, canary)
+            try:
+                sp = node[1]
+                fk = sp.path if sp.region is None else sp.path + "@" + sp.opts.get("name", "region")
+                if force_salvage and fk in force_salvage:
+                    raise ExtractError("%s::%s: %s" % (sp.file, fk, force_salvage[fk]))
+                assemble_fn(node[1], bundle, sub, canary)
+            except ExtractError as e:
+                if os.environ.get("VERIF_NO_SALVAGE"):
+                    raise
+                try:
+                    salvaged.append(salvage_fn(node[1], bundle, sub, e))
+                except ExtractError:
+                    raise e
         elif node[0] == "hoisted":
             bufs.append(("hoisted", node))
             continue
@@ -1292,7 +1362,7 @@ def assemble(template_path, canary=False):
     return {
         "bundle": bundle, "text": text, "linemap": linemap, "clauses": out.clauses, "fns": out.fns,
         "normalisations": out.norm, "dropped": out.dropped, "meta": meta, "tag_regions": tag_regions,
-        "template": template_path,
+        "template": template_path, "salvaged": salvaged,
     }
 
 
@@ -1311,3 +1381,5 @@ if __name__ == "__main__":
     open(a.out, "w").write(r["text"])
     json.dump({k: v for k, v in r.items() if k != "text"}, open(a.out + ".map.json", "w"), indent=1)
     print("assembled %s: %d lines, %d fns, %d clauses" % (a.out, len(r["linemap"]), len(r["fns"]), len(r["clauses"])))
+    for sv in r["salvaged"]:
+        print("SALVAGED %s (%s): %s" % (sv["fn"], ",".join(sv["tags"]), sv["error"]))
